@@ -174,7 +174,7 @@ func checkValidateBeforeUse(r *Run, scope Scope, min int) {
 			key := FuncKey(fd.Obj) + " :: $" + fmt.Sprint(i)
 			pos := r.Prog.RelPos(fd.Decl.Pos())
 			atom, ok := vs.validatesParam(fd, pv, 0)
-			if !ok && !fd.Obj.Exported() && vs.callersValidate(fd, i) {
+			if !ok && (!fd.Obj.Exported() || r.G.isNewFunc(fd.Obj)) && vs.callersValidate(fd, i) {
 				n++
 				r.Pass("C04.G0", key, pos, "unexported helper: every call site passes an already validated message (or is part of a Validate method)")
 				continue
